@@ -160,6 +160,13 @@ func (v *Vue) evaluateNodeAsElement(ctx VueContext, node *html.Node, depth int) 
 
 	// Handle v-for if present
 	if vFor := helpers.GetAttr(node, "v-for"); vFor != "" {
+		// The chain has been decided: the iterations of a v-else / v-else-if element are not
+		// members of it (they would be dropped as an else without an if)
+		if helpers.HasAttr(node, "v-else") || helpers.HasAttr(node, "v-else-if") {
+			loopNode := *node
+			loopNode.Attr = helpers.FilterAttrs(helpers.FilterAttrs(node.Attr, "v-else"), "v-else-if")
+			node = &loopNode
+		}
 		loopNodes, err := v.evalFor(ctx, node, vFor, depth+1)
 		if err != nil {
 			return nil, err
